@@ -217,13 +217,33 @@ def build_app(which, docroot):
 
     @app.route("/cookie")
     def cookie(req):
-        sess = PoorSession(app.secret_key)
+        # a session with every on/off option of the class switched on
+        import inspect
+        opts = {name: True for name, par in inspect.signature(
+            PoorSession.__init__).parameters.items()
+            if par.default is False}
+        sess = PoorSession(app.secret_key, **opts)
         sess.load(req.cookies)
         n = sess.data.get("n", 0) + 1
         sess.data["n"] = n
         res = Response("n=%d" % n)
         sess.header(res)
         return res
+
+    # what cookies the client sent, by name (names that read like cookie
+    # attributes included)
+    @app.route("/cookienames")
+    def cookienames(req):
+        return repr(sorted(getattr(req.cookies, "keys", lambda: [])()))
+
+    # answers built from a long-lived constant of the application
+    @app.route("/jsonconst")
+    def jsonconst(req):
+        from poorwsgi.response import JSONResponse
+        try:
+            return JSONResponse(SERVICE, **{req.query or "q": 1})
+        except RuntimeError:
+            return JSONResponse(dict(SERVICE, **{req.query or "q": 1}))
 
     @app.route("/getonly", method=2)
     def getonly(req):
@@ -275,7 +295,13 @@ def build_app(which, docroot):
     return app
 
 
+SERVICE = {"service": "verif", "version": 1}
+
 KINDS = {
+    "cookienames": dict(path="/cookienames", headers={
+        "Cookie": "theme=dark; partitioned=1; secure=x; httponly=y; lang=cs"}),
+    "jsonconst1": dict(path="/jsonconst", query="k1"),
+    "jsonconst2": dict(path="/jsonconst", query="k2"),
     "hit": dict(path="/hit", query="q=1"),
     "hit2": dict(path="/hit", query="q=two&q=3"),
     "json": dict(path="/json", query="q=a&q=b"),
@@ -504,6 +530,11 @@ def census(apps):
                                       plog.disabled, len(plog.handlers),
                                       logging.root.level,
                                       len(logging.root.handlers)))
+    import http.cookies
+    snap["http.cookies.Morsel"] = repr((
+        sorted(http.cookies.Morsel._reserved.items()),
+        sorted(http.cookies.Morsel._flags)))
+    snap["verif.SERVICE"] = repr(sorted(SERVICE.items()))
     snap["locale"] = repr(locale.setlocale(locale.LC_ALL))
     snap["sys.limits"] = repr((sys.getrecursionlimit(),
                                socket.getdefaulttimeout(),
@@ -636,7 +667,8 @@ def run(ctx):
         if ctx.quick:
             seqs = seqs[:len(kinds)] + rng.sample(seqs[len(kinds):], 500)
         # ordered pairs on one application that every run includes
-        must = [("405", "405"), ("404", "405", "405"), ("ovword", "ovint"), ("ovint", "ovword", "ovint"),
+        must = [("cookie", "cookienames"), ("jsonconst1", "jsonconst2"),
+                ("405", "405"), ("404", "405", "405"), ("ovword", "ovint"), ("ovint", "ovword", "ovint"),
                 ("merge1", "merge2"), ("merge1", "mergepost"),
                 ("mergepost", "mergenoargs"), ("mergenoargs", "merge2"),
                 ("authok", "authok2"), ("usermiss", "user"),
